@@ -8,7 +8,7 @@
    * [wp_foreach], [wp_collect] : the two `for` loops of calc_ss_fractions over the components of one solid solution
 *)
 From Coq Require Import QArith Reals String List Qreals Lra.
-Require Import IPV.C03.Syntax.
+Require Import IPV.C03.Syntax IPV.C03.Spec.
 Import ListNotations.
 Open Scope string_scope.
 Open Scope R_scope.
@@ -78,8 +78,6 @@ End Model.
 
 (* amount used for a component: a negative amount is replaced by MIN_TOTAL_SS *)
 Definition clamp (mn m : R) : R := if Rlt_dec m 0 then mn else m.
-
-Fixpoint sumR (l : list R) : R := match l with [] => 0 | x :: r => x + sumR r end.
 
 Lemma clamp_nonneg : forall mn m, 0 < mn -> 0 <= clamp mn m.
 Proof. intros mn m H. unfold clamp. destruct (Rlt_dec m 0); lra. Qed.
